@@ -81,7 +81,7 @@ theorem kApi_sound : EvalSound kApi notInst where
       subst hv; subst hkind; simp [first]
     · have hk' : litApi.kind e = .string s := by simpa [kApi, hk] using hkind
       exact litApi_sound.str e s hg hk' call ρ k env σ σ' vs h
-  single e hg hm N call ρ k env σ σ' vs h := litApi_sound.single e hg hm call ρ k env σ σ' vs h
+  single e hg hm N call ρ k env σ σ' vs h := canReturnMultiple_sound call ρ k env e hm hg σ σ' vs h
 
 /-- a start state whose only global is the external function `f` -/
 def σ0 : State unitOps :=
